@@ -127,6 +127,15 @@ fn registry_echo(cx: &mut Cx, lang: &'static str, rec: &Rec, q: &str, bare: &[us
     }
 }
 
+/// The build says a derived query does not tokenise back to the intended words. That verdict is believed only if the
+/// harness's own tables agree: parts made of letters and digits only which those tables map to themselves (and which
+/// hold no letter from the middle of a reduction chain) ARE the intended words - a tokeniser that changes them is the
+/// thing to be found, not a reason to skip the query.
+fn tables_say_stable(lang: &str, parts: &[&[char]]) -> bool {
+    let chain = oracle::chain_letters(lang);
+    parts.iter().all(|p| !p.is_empty() && p.iter().all(|c| c.is_alphanumeric() && !chain.contains(c)) && oracle::norm_word(lang, &s(p)) == s(p))
+}
+
 fn lead_in(cx: &mut Cx, st: &mut St, q: &str) {
     if cx.rng.chance(1, 24) {
         // the very same query just before, under a lower limit (0, 1 or 2), which is then restored: whatever the store
@@ -208,8 +217,16 @@ impl Finds {
                         }
                         let q = s(&cs[..plen]);
                         if !oracle::stable(lobj, &q, &[&cs[..plen]]) {
-                            cx.count("skipped_unstable");
-                            continue;
+                            // the build says the typed prefix does not tokenise back to itself. That verdict is believed only if
+                            // the harness's own tables agree: a prefix made of letters and digits only, which those tables map to
+                            // itself, IS the typed prefix (a tokeniser that trims it is the thing to be found, not a reason to skip)
+                            let chain = oracle::chain_letters(lang);
+                            let plain = q.chars().all(|c| c.is_alphanumeric()) && oracle::norm_word(lang, &q) == q && !q.chars().any(|c| chain.contains(&c));
+                            if !plain {
+                                cx.count("skipped_unstable");
+                                continue;
+                            }
+                            cx.count("prefixes the build re-tokenises although the tables leave them alone");
                         }
                         cx.ctx(format!("C03 lang={} title={:?} q={:?}", lang, rec.1, q));
                         lead_in(cx, st, &q);
@@ -307,6 +324,8 @@ impl Finds {
                                 let chain = oracle::chain_letters(lang);
                                 if !cs.iter().any(|c| chain.contains(c)) && e.iter().any(|c| accented.contains(c)) && oracle::stable(lobj, &q, &[&want[..]]) && oracle::lev(&want, &word) <= 1 {
                                     cx.count("typo letter that is an accented letter of the language");
+                                } else if tables_say_stable(lang, &[&e[..]]) {
+                                    cx.count("queries the build re-tokenises although the tables leave them alone");
                                 } else {
                                     cx.count("skipped_unstable");
                                     continue;
@@ -367,8 +386,12 @@ impl Finds {
                     for (a, b, name) in [(&f, &l, "first last"), (&l, &f, "last first")].iter() {
                         let q = format!("{} {}", s(a), s(b));
                         if !oracle::stable(lobj, &q, &[&a[..], &b[..]]) {
-                            cx.count("skipped_unstable");
-                            continue;
+                            if tables_say_stable(lang, &[&a[..], &b[..]]) {
+                                cx.count("queries the build re-tokenises although the tables leave them alone");
+                            } else {
+                                cx.count("skipped_unstable");
+                                continue;
+                            }
                         }
                         cx.ctx(format!("C13 lang={} title={:?} q={:?}", lang, rec.1, q));
                         lead_in(cx, st, &q);
@@ -410,6 +433,8 @@ impl Finds {
                                 let typed: Vec<char> = tq.words.iter().flat_map(|w| tq.chars[w.slice.0..w.slice.1].to_vec()).collect();
                                 if tq.words.len() == 2 && letters(&typed) == letters(&cs) && cs.iter().any(|c| !c.is_alphanumeric()) {
                                     cx.count("split next to symbols inside the word");
+                                } else if !q.ends_with(|c: char| !c.is_alphanumeric()) && tables_say_stable(lang, &[&cs[..sp], &cs[sp..]]) {
+                                    cx.count("queries the build re-tokenises although the tables leave them alone");
                                 } else {
                                     cx.count("skipped_unstable");
                                     continue;
